@@ -157,9 +157,8 @@ func decodeShape(w *W, k lib.Kind, s string, nilRecv bool, recv lib.Obj, reuse b
 	return o, err
 }
 
-// decodeShapeMode is decodeShape for the further receiver modes (embedded, re-plugged, preset, nil after a
-// rejected nil decode, scribbled), and judges "usable object" on an accepted vector: it reports no error and
-// encodes.
+// decodeShapeMode is decodeShape for the further receiver modes (embedded decoder, nil receiver after a
+// rejected nil decode), and judges "usable object" on an accepted vector: it reports no error and encodes.
 func decodeShapeMode(w *W, k lib.Kind, s string, mode int) {
 	w.Eval(1)
 	o, recv, err, pan := lib.DecodeMode(k, s, mode)
@@ -235,7 +234,7 @@ func runC12(r *Run) int {
 				}
 			}
 			// one more decoder per string through a further receiver mode
-			decodeShapeMode(w, kindOf(v2, int(h>>29)%3), s, lib.RecvEmbedded+int(h>>33)%5)
+			decodeShapeMode(w, kindOf(v2, int(h>>29)%3), s, lib.RecvEmbedded+int(h>>33)%2)
 			if h%400009 == 0 {
 				w.Sample(map[string]interface{}{"string": clip(s, 120), "generator": m.Src})
 			}
